@@ -716,7 +716,7 @@ Proof. reflexivity. Qed.
 (* the counter is bumped iff the first three guards pass (the zero-length guard adds 0 anyway) *)
 Definition req_door (c : connp) : bool :=
   negb (c_in_status c =? c_HTP_STREAM_STOP) && negb (c_in_status c =? c_HTP_STREAM_ERROR) &&
-  negb (match c_in_tx c with None => negb (req_state_eqb (c_in_state c) REQ_IDLE) | Some _ => false end).
+  negb (match c_in_tx c with None => negb (req_state_eqb (c_in_state c) REQ_IDLE) && negb (c_in_status c =? c_HTP_STREAM_TUNNEL) | Some _ => false end).
 Definition res_door (c : connp) : bool :=
   negb (c_out_status c =? c_HTP_STREAM_STOP) && negb (c_out_status c =? c_HTP_STREAM_ERROR) &&
   negb (match c_out_tx c with None => negb (res_state_eqb (c_out_state c) RES_IDLE) | Some _ => false end).
@@ -735,7 +735,7 @@ Proof.
   { unfold cnt. rewrite Z.add_0_r. auto. }
   destruct (c_in_status c =? c_HTP_STREAM_ERROR) eqn:E2; cbn [negb andb fst].
   { unfold cnt. rewrite Z.add_0_r. auto. }
-  destruct (match c_in_tx c with None => negb (req_state_eqb (c_in_state c) REQ_IDLE) | Some _ => false end) eqn:E3;
+  destruct (match c_in_tx c with None => negb (req_state_eqb (c_in_state c) REQ_IDLE) && negb (c_in_status c =? c_HTP_STREAM_TUNNEL) | Some _ => false end) eqn:E3;
     cbn [negb andb fst].
   { unfold cnt. cbn. rewrite Z.add_0_r. auto. }
   destruct ((len =? 0)%nat && negb (c_in_status c =? c_HTP_STREAM_CLOSED))%bool eqn:E4; cbn [fst].
@@ -821,7 +821,7 @@ Proof.
   { intros [H|[H|H]]; revert H; stream_ne. }
   destruct (c_in_status c =? c_HTP_STREAM_ERROR) eqn:E2; cbn [snd].
   { intros [H|[H|H]]; revert H; stream_ne. }
-  destruct (match c_in_tx c with None => negb (req_state_eqb (c_in_state c) REQ_IDLE) | Some _ => false end) eqn:E3;
+  destruct (match c_in_tx c with None => negb (req_state_eqb (c_in_state c) REQ_IDLE) && negb (c_in_status c =? c_HTP_STREAM_TUNNEL) | Some _ => false end) eqn:E3;
     cbn [snd].
   { intros [H|[H|H]]; revert H; stream_ne. }
   intros _. reflexivity.
